@@ -54,6 +54,7 @@ func vh_RO() {
 	r.wg.Add(1)
 	r.readOnlyLoop()
 	vDrain()
+	vCheckInv(n, true, true)
 	vAssert(ctl.waits == 2, "C18.read-loop-returns-to-wait")
 	vAssert(!vHeld(&r.mu), "C18|C20.lock-released")
 	vAssert(vAnd(post.commit == pre.commit, vAnd(post.applied == pre.applied, vAnd(post.logLen == pre.logLen, post.term == pre.term))), "C01.read-loop-changes-no-replicated-state")
